@@ -641,7 +641,7 @@ fn restore_and_dump(backup_dir: &std::path::Path, id: nervusdb_storage::backup::
 
 pub fn c29(tier: Tier) -> i32 {
     let rep = Report::new("C29", tier);
-    rep.rule("quiescent part: every history of the storage alphabet up to the stated depth, then close, backup, restore into a fresh path, open: dump equal. Concurrent part: a backup thread (scheduling points before the page-file copy, between the two copies, after the log copy) runs against a writer thread executing a fixed list over {commit, compact, close-time log rewrite} (two configurations: points at every lock acquisition and publication step with the larger preemption bound, and additionally at every I/O step with the smaller one); ALL schedules with at most the stated number of preemptions; oracle: the source files, copied when both threads are done (the process killed there), recover to the writer's final state (the backup did not touch the source); the restored database opens and its dump equals the sequential state after p writer operations, completed_before_backup_began <= p <= started_before_backup_completed; non-trivial = backups that overlapped a writer operation");
+    rep.rule("quiescent part: every history of the storage alphabet up to the stated depth, then close, backup, restore into a fresh path, open: dump equal; then backup again, commit two more transactions, drop the handle and restore over the database's OWN (longer) files: the dump equals the state at backup time. Concurrent part: a backup thread (scheduling points before the page-file copy, between the two copies, after the log copy) runs against a writer thread executing a fixed list over {commit, compact, close-time log rewrite} (two configurations: points at every lock acquisition and publication step with the larger preemption bound, and additionally at every I/O step with the smaller one); ALL schedules with at most the stated number of preemptions; oracle: the source files, copied when both threads are done (the process killed there), recover to the writer's final state (the backup did not touch the source); the restored database opens and its dump equals the sequential state after p writer operations, completed_before_backup_began <= p <= started_before_backup_completed; non-trivial = backups that overlapped a writer operation");
     // quiescent
     {
         let nodes = vec![1u64, 2];
@@ -682,6 +682,29 @@ pub fn c29(tier: Tier) -> i32 {
                             out.violations.push(Violation { class, kinds: kinds(&hh), replay: json!({"engine":"seq","history": show_history(&hh)}), detail: d });
                         }
                         None => out.label = "restored_equal".into(),
+                    }
+                }
+            }
+            if !out.violations.is_empty() {
+                return out;
+            }
+            // second scenario: the database grows after the backup and the backup is restored over its own files
+            let before2 = sut.dump(&DumpSpec::default());
+            let mut hh = h.to_vec();
+            hh.push(Op::BackupGrowRestoreInPlace);
+            out.steps += 1;
+            match sut.apply(&Op::BackupGrowRestoreInPlace, &model) {
+                Err(e) => {
+                    let class = format!("in_place_restore_failed:{}", truncate(&e, 60));
+                    out.label = class.clone();
+                    out.violations.push(Violation { class, kinds: kinds(&hh), replay: json!({"engine":"seq","history": show_history(&hh)}), detail: e });
+                }
+                Ok(()) => {
+                    let after = sut.dump(&DumpSpec::default());
+                    if let Some((c, d)) = before2.diff(&after) {
+                        let class = format!("in_place_restore:{c}");
+                        out.label = class.clone();
+                        out.violations.push(Violation { class, kinds: kinds(&hh), replay: json!({"engine":"seq","history": show_history(&hh)}), detail: format!("state at backup time vs state after restoring over the grown database: {d}") });
                     }
                 }
             }
